@@ -7,12 +7,19 @@ Instrumented points (every one of them *parks* the calling thread / coroutine un
   * `replicat.repository.threading.Lock()` — replaced (for the duration of an operation) by `ParkLock`: parks before the
     acquisition (enabled only while the lock is free) and again after the release;
   * `Repository._write_file_part` — parks inside the per-file critical section (so overlapping writers are forced if possible);
-  * the chunk producer — parks before every `chunk_queue.put` (`replicat.repository.queue.Queue` is replaced by `RecQueue`).
+  * the chunk producer — parks inside its first `chunk_queue.put` call for every chunk, i.e. after the producer's own abort test
+    (`replicat.repository.queue.Queue` is replaced by `RecQueue`).
 Observed without parking: slot acquisitions/releases (`RecSlots`, a subclass of `asyncio.PriorityQueue` installed as
 `repo._slots`), queue put/get/poll and the workers' loop test, executor jobs (`RecExecutor`), finalisations.
 
-Every parked point has a time-out; a schedule in which nothing is enabled and the operation is not over is reported as `hang`.
-The run is described by the list of decisions (`Controller.decisions`); strategies: FIFO, random, PCT, prescribed list.
+Every parked point has a time-out; a schedule in which nothing is enabled and the operation is not over is reported as `hang`
+(with the stack of every thread of the operation that is still blocked); an untimed `chunk_queue.put` is performed as a loop of
+short timed attempts so that a thread blocked in it for ever can be unwound after the hang has been reported.
+The run is described by the list of decisions (`Controller.decisions`); strategies: FIFO, random, PCT, producer-ahead, prescribed list.
+
+Fault plans (`fail_at`): `(op, label)` = that one call fails once; `{'kind': 'outage', 'from': k}` = the first k chunk transfers
+complete, every later one fails (a backend outage: no worker survives); `{'kind': 'calls', 'ordinals': [...]}` = exactly the
+listed chunk transfers (numbered in the order the controller completes them) fail.
 """
 import asyncio
 import itertools
@@ -87,6 +94,28 @@ class PCT:
             self.prio[best] = self.low
             best = max(cands, key=lambda a: self.prio[a])
         return best
+
+
+class ProducerAhead:
+    """the chunk producer runs whenever it can (with probability `bias` per step), i.e. until it has filled the bounded queue and
+    is waiting in `put`; backend calls complete in random order in between.  This is the schedule of a fast disk and a slow
+    network: the producer is a whole queue length ahead of the workers when transfers complete (or fail)."""
+    name = 'ahead'
+
+    def __init__(self, rng, bias=1.0, patience=60):
+        self.rng, self.bias, self.patience = rng, bias, patience
+
+    def choose(self, cands, step, last, ctl):
+        prod = [a for a in cands if a and a[0] == 'P']
+        if prod and self.rng.random() < self.bias:
+            return prod[0]
+        if not prod and ctl.producer_state == 'running' and self.patience > 0 and self.bias >= 1.0:
+            # the producer is between two chunks (not parked, not waiting on the full queue): give it time instead of
+            # completing a transfer first — keeps the schedule "producer ahead" on a loaded machine (bounded patience)
+            self.patience -= 1
+            return WAIT
+        rest = [a for a in cands if a not in prod and a != WAIT] or [a for a in cands if a not in prod] or cands
+        return self.rng.choice(rest)
 
 
 class Listed:
@@ -166,6 +195,13 @@ class Controller:
         self.multi_choice_steps = 0
         self.wait_streak = 0
         self.faults_injected = 0
+        self.transfer_ordinal = 0                # chunk transfers completed (normally or with a fault) so far
+        self.fault_log = []                      # per injected fault: dict(ordinal, op, label, queue_len, queue_cap, producer, produced, taken)
+        self.queue_cap = None
+        self.producer_state = None               # None (not started / over) | 'parked' | 'running' | 'waiting-full'
+        self.put_full_waits = 0                  # how many chunks found the queue full when the producer tried to queue them
+        self.full_item = None
+        self.blocked_stacks = None               # at a hang: thread name → innermost function names
 
     # ---- identities
     def agent(self):
@@ -308,6 +344,7 @@ class Controller:
                         stall_since = now
                     elif now - max(stall_since, self.last_event) > self.hang_after:
                         self.hang = self.hang or ('no parked agent is enabled and the operation is not over (parked: %r)' % (sorted(self.parked)[:6],))
+                        self.blocked_stacks = self._blocked_stacks()
                         self.log.append(('hang', self.hang))
                         self.mode = 'teardown'
                         continue
@@ -331,10 +368,7 @@ class Controller:
                 self.wait_streak = 0
                 p = self.parked.pop(a)
                 self.last_agent = a
-                action = 'go'
-                if p.kind == 'call' and self.fail_at is not None and self.fail_at == p.info and not self.faults_injected:
-                    action = 'fail'
-                    self.faults_injected += 1
+                action = 'fail' if self._fault_for(p) else 'go'
                 if p.kind == 'acq':
                     lk = p.info
                     lk.owner = a
@@ -343,6 +377,55 @@ class Controller:
                 self.running[a] = time.monotonic()
                 self.last_event = time.monotonic()
                 self._release(p, action)
+
+    CHUNK_TRANSFERS = ('exists', 'upload_stream', 'download_stream')
+
+    def _fault_for(self, p):
+        """(under cv) does the fault plan complete this parked call with an injected failure?"""
+        if p.kind != 'call' or not isinstance(p.info, tuple) or len(p.info) != 2:
+            return False
+        op, lab = p.info
+        fa = self.fail_at
+        hit = False
+        chunk_transfer = op in self.CHUNK_TRANSFERS and isinstance(lab, tuple) and lab[:1] == ('c',)
+        if isinstance(fa, dict):
+            if chunk_transfer and op in fa.get('ops', self.CHUNK_TRANSFERS):
+                k = self.transfer_ordinal
+                hit = (k >= fa['from']) if fa.get('kind') == 'outage' else (k in fa.get('ordinals', ()))
+        elif fa is not None:
+            hit = tuple(fa) == p.info and not self.faults_injected
+        if chunk_transfer:
+            self.transfer_ordinal += 1
+        if hit:
+            self.faults_injected += 1
+            self.fault_log.append({'ordinal': self.transfer_ordinal - 1 if chunk_transfer else None, 'op': op, 'label': lab,
+                                   'queue_len': self.queue_len, 'queue_cap': self.queue_cap, 'producer': self.producer_state,
+                                   'taken': self.taken, 'workers_live': self.tasks_live})
+        return hit
+
+    def _blocked_stacks(self):
+        """what a hung run is blocked in: for every other thread that is inside a function of the `replicat` package, the
+        innermost function names of its stack (innermost first)"""
+        out = {}
+        try:
+            frames = sys._current_frames()
+            for t in _threading.enumerate():
+                if t.ident not in frames or t is self.thread or t is _threading.main_thread():
+                    continue
+                names, inside = [], False
+                f = frames[t.ident]
+                while f is not None:
+                    fn = f.f_code.co_filename.replace(os.sep, '/')
+                    if '/replicat/' in fn and '/harness/' not in fn:
+                        inside = True
+                    if len(names) < 5:
+                        names.append(f.f_code.co_name)
+                    f = f.f_back
+                if inside:
+                    out[t.name] = names
+        except Exception:  # noqa: BLE001
+            pass
+        return out
 
     def shutdown(self):
         with self.cv:
@@ -424,6 +507,8 @@ class Controller:
     def job_end(self, key, exc):
         self.tls.job = None
         with self.cv:
+            if key == ('P',):
+                self.producer_state = None
             self.jobs_active -= 1
             self.running.pop(key, None)
             self.log.append(('job_end', key, None if exc is None else type(exc).__name__, None if exc is None else repr(exc.args[:1])))
@@ -614,6 +699,7 @@ class RecQueue(_queue.Queue):
         super().__init__(maxsize)
         self.ctl = CURRENT
         if self.ctl is not None:
+            self.ctl.queue_cap = maxsize
             self.ctl.rec('q_new', maxsize)
 
     @staticmethod
@@ -627,9 +713,38 @@ class RecQueue(_queue.Queue):
             if ctl.mode == 'teardown':
                 raise SchedTeardown('put')
             k = self._k(item)
-            if ctl.gate_producer and id(item) not in ctl.put_seen:
-                ctl.put_seen.add(id(item))
-                ctl.park(ctl.agent() or ('P',), 'put', k)
+            key = k if k is not None else ('id', id(item))
+            if key not in ctl.put_seen:
+                # the producer is past its abort test for this chunk and calls `put` (first attempt)
+                ctl.put_seen.add(key)
+                ctl.rec('q_put_try', k)
+                if ctl.gate_producer:
+                    ctl.producer_state = 'parked'
+                    try:
+                        ctl.park(ctl.agent() or ('P',), 'put', k)
+                    finally:
+                        ctl.producer_state = 'running'
+            if block:
+                # same meaning as `Queue.put(item, True, timeout)`; an untimed put is a loop of short attempts, so that a producer
+                # that waits for ever on a full queue (nobody is left to take a chunk) can be unwound once the hang is reported
+                deadline = None if timeout is None else time.monotonic() + timeout
+                while True:
+                    step = 0.02 if deadline is None else max(0.0, min(0.02, deadline - time.monotonic()))
+                    try:
+                        r = super().put(item, True, step)
+                        ctl.producer_state = 'running'
+                        return r
+                    except _queue.Full:
+                        if ctl.full_item != id(item):          # first time this chunk finds the queue full
+                            ctl.full_item = id(item)
+                            with ctl.cv:
+                                ctl.put_full_waits += 1
+                                ctl.log.append(('q_put_full', k))
+                        ctl.producer_state = 'waiting-full'
+                        if deadline is not None and time.monotonic() >= deadline:
+                            raise
+                        if ctl.mode == 'teardown' or ctl.stop:
+                            raise SchedTeardown('put on a full queue')
         return super().put(item, block, timeout)
 
     def _put(self, item):
